@@ -150,3 +150,33 @@ func Harness_C11_largeOIDArc() {
 	f, ferr := ParseCertificate(der)
 	vAssert(f != nil && ferr == nil, "a policy identifier with an arc of 2^31 or more parses with no error, as in the standard library")
 }
+
+// Harness_C11_rpkiASIDs: the RFC 3779 AS identifiers extension with single AS numbers at the ends
+// of their range (0, 2^31-1, 2^31, 2^32-1: the last two need a leading zero octet in DER) and a
+// range up to 2^32-1: the standard library accepts the certificate, so the lenient parser reports
+// no error at all, and every identifier is reported with its value.
+//
+//verif:opt maxpaths=200 reach=both-accept
+func Harness_C11_rpkiASIDs() {
+	ids := [][]byte{{0x00}, {0x7f, 0xff, 0xff, 0xff}, {0x00, 0x80, 0x00, 0x00, 0x00}, {0x00, 0xff, 0xff, 0xff, 0xff}}
+	vals := []int{0, 1<<31 - 1, 1 << 31, 1<<32 - 1}
+	k := vChoice("as-number", 4)
+	asnum := derTLV(0xa0, derTLV(0x30,
+		derTLV(0x02, ids[k]),
+		derTLV(0x30, derTLV(0x02, []byte{0x01}), derTLV(0x02, []byte{0x00, 0xff, 0xff, 0xff, 0xff}))))
+	ext := c03Ext([]byte{0x06, 0x08, 0x2b, 0x06, 0x01, 0x05, 0x05, 0x07, 0x01, 0x08}, vChoice("critical", 2) == 1, derTLV(0x30, asnum))
+	der := c11StdCert(ext)
+	_, serr := stdx509.ParseCertificate(der)
+	f, ferr := ParseCertificate(der)
+	if serr != nil {
+		return // (a critical extension the standard library does not know)
+	}
+	vReach("both-accept")
+	vAssert(f != nil && ferr == nil, "a certificate the standard library accepts parses with no error at all")
+	if f != nil && f.RPKIASNumbers != nil {
+		vAssert(len(f.RPKIASNumbers.ASIDs) == 1 && f.RPKIASNumbers.ASIDs[0] == vals[k], "the AS number is reported with its value")
+		vAssert(len(f.RPKIASNumbers.ASIDRanges) == 1 && f.RPKIASNumbers.ASIDRanges[0].Min == 1 && f.RPKIASNumbers.ASIDRanges[0].Max == 1<<32-1, "the range is reported with its bounds")
+	} else {
+		vAssert(f == nil, "the AS identifiers are reported")
+	}
+}
